@@ -208,6 +208,7 @@ func Main() int {
 		return replay(ctx, p, rp)
 	}
 	p.Run(ctx)
+	runWitnesses(ctx, p)
 	if ctx.Build == "cover" {
 		// reduced-scale reach measurement: the cell floors apply to the main run only
 		col.Res.Targets = nil
